@@ -214,6 +214,8 @@ def run_kani_group(prop_id, tier, target, modules, harnesses, support=(), elide_
                    prepare=None, jobs=8, harness_timeout=None, notes=None, modpath=None):
     """modules: {src rel path: harness file name under /verif/harness}.  Returns [Obl]."""
     hs = [h for h in harnesses if tier == "thorough" or h.tier == "quick"]
+    if os.environ.get("VERIF_DEV_ENGINES", "KM").find("K") < 0:  # development aid only
+        return []
     if not hs:
         return []
     if harness_timeout is None:
@@ -378,6 +380,8 @@ def load_mir(target, notes=None):
 def run_mir_obligations(prop_id, tier, mos, notes=None):
     from . import mirflow as MF
     obls = []
+    if os.environ.get("VERIF_DEV_ENGINES", "KM").find("M") < 0:  # development aid only
+        return []
     mos = [m for m in mos if tier == "thorough" or m.tier == "quick"]
     by_target = {}
     for m in mos:
